@@ -49,6 +49,31 @@ func init() {
 	}
 }
 
+func init() {
+	iterMethodValues["(*sync.Map).Range"] = func(fv *FuncVerifier, st *State, env *Env, sel *ast.SelectorExpr) iterInfo {
+		// Range yields exactly the stored pairs, each once, in an ARBITRARY order
+		w := fv.w
+		sr := w.SeqSort(SRef)
+		recv := fv.eval(st, env, sel.X)
+		ks := fv.readField(st, recv, "$syncmap:keys", sr)
+		vs := fv.readField(st, recv, "$syncmap:vals", sr)
+		yk := fv.fresh("rng_keys", sr)
+		yv := fv.fresh("rng_vals", sr)
+		fv.nfresh++
+		perm := fmt.Sprintf("smperm!%d_%s", fv.nfresh, sanitize(fv.fn.Key))
+		inv := fmt.Sprintf("sminv!%d_%s", fv.nfresh, sanitize(fv.fn.Key))
+		w.UFun(perm, []Sort{SInt}, SInt, "")
+		w.UFun(inv, []Sort{SInt}, SInt, "")
+		st.Assume(And(eqT(w.SeqLen(yk), w.SeqLen(ks)), eqT(w.SeqLen(yv), w.SeqLen(ks)), eqT(w.SeqLen(vs), w.SeqLen(ks))))
+		st.Assume(T(SBool, "(forall ((i$ Int)) (! (=> (and (<= 0 i$) (< i$ (len_Ref %[1]s))) (and (<= 0 (%[2]s i$)) (< (%[2]s i$) (len_Ref %[1]s)) (= (%[3]s (%[2]s i$)) i$) (= (at_Ref %[4]s i$) (at_Ref %[1]s (%[2]s i$))) (= (at_Ref %[5]s i$) (at_Ref %[6]s (%[2]s i$))))) :pattern ((at_Ref %[4]s i$)) :pattern ((at_Ref %[5]s i$))))",
+			ks.S, perm, inv, yk.S, yv.S, vs.S))
+		st.Assume(T(SBool, "(forall ((j$ Int)) (! (=> (and (<= 0 j$) (< j$ (len_Ref %[1]s))) (and (<= 0 (%[2]s j$)) (< (%[2]s j$) (len_Ref %[1]s)) (= (%[3]s (%[2]s j$)) j$))) :pattern ((%[2]s j$))))",
+			ks.S, inv, perm))
+		fv.nondet = append(fv.nondet, "sync.Map.Range (arbitrary order)")
+		return iterInfo{val: fv.fresh("rangeiter", SRef), ys: yk, ys2: yv, pure: true}
+	}
+}
+
 func calleeOf(info *types.Info, call *ast.CallExpr) types.Object {
 	defer func() { recover() }()
 	return typeutil.Callee(info, call)
@@ -407,6 +432,16 @@ func init() {
 		return []Term{fv.w.SeqLen(c.args[1]), Null}
 	})
 	externEffects["io.WriteString"] = "content"
+	// ---- sync.Map: ghost insertion lists ----
+	reg("(*sync.Map).Store", "sync.Map.Store(k, v): records the pair (modelled as an append: callers store each key once — stated as a precondition where used)", func(fv *FuncVerifier, st *State, env *Env, c *CallCtx) []Term {
+		sr := fv.w.SeqSort(SRef)
+		ks := fv.readField(st, c.recv, "$syncmap:keys", sr)
+		vs := fv.readField(st, c.recv, "$syncmap:vals", sr)
+		fv.writeField(st, c.recv, "$syncmap:keys", sr, fv.w.SeqCat(ks, fv.w.SeqUnit(sr, c.args[0])))
+		fv.writeField(st, c.recv, "$syncmap:vals", sr, fv.w.SeqCat(vs, fv.w.SeqUnit(sr, c.args[1])))
+		return nil
+	})
+	externEffects["(*sync.Map).Store"] = "syncmap"
 	// ---- reflect ----
 	reg("reflect.New", "reflect.New(T): a Value holding a FRESH non-nil pointer (to a zero T)", func(fv *FuncVerifier, st *State, env *Env, c *CallCtx) []Term {
 		p := fv.fresh("reflnew", SRef)
